@@ -77,3 +77,64 @@ Proof.
   intros h [<-|[<-|[<-|[]]]]; vm_compute; tauto.
 Qed.
 Print Assumptions c01_routes.
+
+(* ---- end to end (Model/Compose.v): the bypass decision of C15, the signed cookie of C02 and the
+   handlers above composed as oauthproxy.go composes them.  Whatever the request: a disclosing
+   answer implies a bypass the operator configured (preflight skipping and an OPTIONS request, a
+   skip-auth rule matching method and path, a trusted network containing the client address), or a
+   session a token / basic-auth loader vouched for, or a presented cookie (or joined split cookie)
+   whose third field decodes to the MAC of its name, first and second field under the
+   deployment's secret, whose timestamp is inside the window and whose value decodes to that
+   session - and in the last two cases the session passes the authorisation rules. *)
+From V.Lib Require Import Base64 NetAddr.
+From V.Model Require Import Signed Cookies CookieStore Bypass Compose.
+From V.Proofs Require Import ComposeProofs.
+
+Theorem c01_end_to_end : forall mac matches parse_uri_path parse_ip decode_session ep d r o cleared,
+  serve_request mac matches parse_uri_path parse_ip decode_session ep d r = (o, cleared) -> discloses o = true ->
+  ((d_skip_preflight d = true /\ b_method (r_b r) = options_m) \/
+   is_allowed_route matches parse_uri_path (d_routes d) (r_b r) = true \/
+   is_trusted_ip parse_ip (d_trusted d) (d_use_header d) (r_b r) = true) \/
+  exists s,
+    authorised (d_validator d) (d_groups d) s /\
+    (ep = EpAuthOnly -> auth_only_authorize (q_groups (r_p r)) (q_domains (r_p r)) (q_emails (r_p r)) (Some s) = true) /\
+    ((d_bearer_on d = true /\ r_bearer r = Some s) \/
+     (d_basic_on d = true /\ r_basic r = Some s) \/
+     exists n c raw t ev ts sg,
+       load_cookie (c_name (d_cookie d)) (r_cookies r) = Some (n, c) /\
+       validate mac n c (r_now r) (c_expire_ns (d_cookie d)) = Some (raw, t) /\
+       decode_session raw = Some s /\
+       split_on bar c = [ev; ts; sg] /\ url_decode sg = Some (mac (mac_input n ev ts)) /\
+       atoi ts = Some t /\ url_decode ev = Some raw).
+Proof. exact end_to_end_only_if. Qed.
+Print Assumptions c01_end_to_end.
+
+Theorem c01_end_to_end_otherwise : forall mac matches parse_uri_path parse_ip decode_session ep d r,
+  bypassed matches parse_uri_path parse_ip d r = false ->
+  (d_bearer_on d = false \/ r_bearer r = None) -> (d_basic_on d = false \/ r_basic r = None) ->
+  store_load mac (d_cookie d) (r_cookies r) (r_now r) = None ->
+  let o := fst (serve_request mac matches parse_uri_path parse_ip decode_session ep d r) in
+  discloses o = false /\
+  (o = PSignInPage \/ o = PRedirectToProvider \/ o = PUnauthorized \/ (o = PErrorPage /\ q_clear_fails (r_p r) = true)).
+Proof. exact end_to_end_otherwise. Qed.
+Print Assumptions c01_end_to_end_otherwise.
+
+(* the same with the server-side store: the session is the store entry named by a ticket cookie that
+   validates, unsealed with that ticket's secret *)
+From V.Model Require Import Ticket.
+Theorem c01_end_to_end_ticket : forall mac matches parse_uri_path parse_ip unseal store ep d r o cleared,
+  serve_request_ticket mac matches parse_uri_path parse_ip unseal store ep d r = (o, cleared) -> discloses o = true ->
+  ((d_skip_preflight d = true /\ b_method (r_b r) = options_m) \/
+   is_allowed_route matches parse_uri_path (d_routes d) (r_b r) = true \/
+   is_trusted_ip parse_ip (d_trusted d) (d_use_header d) (r_b r) = true) \/
+  exists s,
+    authorised (d_validator d) (d_groups d) s /\
+    (ep = EpAuthOnly -> auth_only_authorize (q_groups (r_p r)) (q_domains (r_p r)) (q_emails (r_p r)) (Some s) = true) /\
+    ((d_bearer_on d = true /\ r_bearer r = Some s) \/
+     (d_basic_on d = true /\ r_basic r = Some s) \/
+     exists v raw t id sec ct,
+       find_cookie (c_name (d_cookie d)) (r_cookies r) = Some v /\
+       validate mac (c_name (d_cookie d)) v (r_now r) (c_expire_ns (d_cookie d)) = Some (raw, t) /\
+       decode_ticket raw = Some (id, sec) /\ store id = Some ct /\ unseal sec ct = Some s).
+Proof. intros mac matches parse_uri_path parse_ip unseal. exact (end_to_end_ticket_only_if mac matches parse_uri_path parse_ip unseal). Qed.
+Print Assumptions c01_end_to_end_ticket.
